@@ -66,6 +66,11 @@ def cases(tier, seed):
     for alphas in ([0.7], [0.7, 0.9]):
         for lv in levels:
             out.append({"pm": "gaussian", "office": "G", "election": "nocls", "estimands": ["turnout"], "alphas": alphas, "aggregates": lv + ["unit"], "seed": seed})
+    # a reporting and an outstanding unit without a single baseline vote for one of the two estimands (turnout normal)
+    for pm in ("nonparametric", "gaussian"):
+        for est in _sublists(["turnout", "dem"]):
+            for lv in (["postal_code"], ["postal_code", "county_fips"]):
+                out.append({"pm": pm, "office": "G", "election": "nodem", "estimands": est, "alphas": [0.7, 0.9], "aggregates": lv + ["unit"], "seed": seed})
     # the historical client: every ordered sub-list of estimands, aggregate sub-lists
     for pm in ("nonparametric", "gaussian"):
         for est in _sublists(["turnout", "dem"]):
@@ -105,6 +110,12 @@ def _election(case):
         for i, u in enumerate(units):
             if i % 5 == 2:
                 u["cls"] = None
+        return units
+    if case.get("election") == "nodem":
+        units = E.background(case["seed"], "G", 30, "AA2", partial=3)
+        for u in (units[4], units[-1]):  # one reporting, one outstanding
+            u["b_dem"] = 0
+            u["b_gop"] = u["b_turnout"] - 10
         return units
     if case.get("election") == "smallstate":
         units = E.background(case["seed"], "G", 40, "AA2", partial=3)
